@@ -109,9 +109,8 @@ func debOutcome(raw []byte) (string, error) {
 			if e == nil || e.Size < 0 {
 				return errf("ArContent[%q] is nil or has a negative size", name)
 			}
-			e.Data.Seek(0, io.SeekStart)
 			if name != "data.tar" && !strings.HasPrefix(name, "data.") { // the data member is being streamed
-				b, rerr := io.ReadAll(e.Data)
+				b, rerr := io.ReadAll(io.NewSectionReader(e.Data, 0, e.Data.Size()))
 				if rerr != nil || int64(len(b)) != e.Size {
 					return errf("ArContent[%q] declares %d bytes but delivers %d (err %v)", name, e.Size, len(b), rerr)
 				}
